@@ -17,9 +17,25 @@
       decimals and is the exact product price × quantity rounded once;
     * every presented total has exactly the currency's decimals and is the
       half-away rounding of the working-precision value.
+    * against the rational no-rounding pipeline `Spec.C01.exactQ` (helper lemmas
+      in Proofs/CalcErrorMore.lean), for the document class `DocC` (precise rule,
+      prices not including tax, lines in the document currency without breakdown,
+      percentage (≤ 100 %) or fixed (≤ currency + 2 decimals) line discounts and
+      charges, percentage document discounts and charges, ordinary tax combos,
+      percentage or fixed advances): `calc_eq_spec` — every presented total is the
+      half-away rounding at currency precision of a working value whose distance
+      from `exactQ d` is at most (number of contributing rounding points) × half a
+      unit of the working precision — and `precise_error_lt_unit` (weight < 100 ⇒
+      every presented total less than one minor unit from the exact value); the
+      intermediate statements `adj_line_error`, `presented_sum_adj_within_one_unit`,
+      `presented_total_adj_within_one_unit`, `presented_tax_within_one_unit`,
+      `presented_payment_within_one_unit` need only the part of the class they use.
   Not proved (exercised by the correspondence and the error-bound oracle only):
-    `calc_eq_spec` as a single closed formula for whole documents, and
-    `precise_error_lt_unit` (the bound against arithmetic with no rounding at all).
+    the same bound outside `DocC`: lines with a breakdown, foreign-currency items,
+    rate × quantity charges, percentages with an explicit base, fixed amounts finer
+    than currency + 2 decimals, included taxes (`prices_include`), retained taxes and
+    surcharges, the `currency` rule, and the per-line presented figures and due dates
+    (`out.lines`, `out.dues`).
 -/
 import GoblVerif.Spec.C01
 import GoblVerif.Generated.CalcFacts
@@ -596,6 +612,196 @@ example : DocT adjDoc ∧
       (fun t => (groupsT t, taxW adjDoc (groupsT t), twtW adjDoc (groupsT t), t.tax, t.totalWithTax)) =
       some (2, 12, 44, ⟨601, 2⟩, ⟨3416, 2⟩) :=
   ⟨adjDoc_tax_class, by decide⟩
+
+/-! ## payable, advances, due
+
+`twtW d G = totalW d + taxW d G` (total with tax, payable), `advW d G = #advances·(1 + twtW d G)`,
+`dueW d G = twtW d G + advW d G`. -/
+
+/-- (3) class `DocC` (class `DocT`; an externally supplied `totals.rounding` with at most
+currency + 2 decimals; every advance a percentage ≤ 100 % of the total with tax or a fixed amount with
+at most currency + 2 decimals): the presented payable, advances total and amount due are less than
+one minor unit from the exact rational values whenever their weight is below 100 -/
+theorem presented_payment_within_one_unit (d : Doc) (out : Out) (t : Totals) (hd : DocC d)
+    (hcalc : calculate exactOps d = .ok out) (ht : out.totals = some t) :
+    (twtW d (groupsT t) < 100 → |t.payable.toRat - (exactQ d).payable| < 1 / ((pow10 d.c : ℤ) : ℚ)) ∧
+    (advW d (groupsT t) < 100 → ∀ x, t.advances = some x →
+      |x.toRat - (exactQ d).advances| < 1 / ((pow10 d.c : ℤ) : ℚ)) ∧
+    (dueW d (groupsT t) < 100 → ∀ x, t.due = some x →
+      |x.toRat - (exactQ d).due| < 1 / ((pow10 d.c : ℤ) : ℚ)) := by
+  obtain ⟨p, tx, hpre, htx, _, htr⟩ := calculate_unpack d out t hcalc ht
+  obtain ⟨_, _, _, _, _, _, w7, w8, w9⟩ := working_spec d p tx hd hpre htx
+  have hG : groupsT t = groupsOf tx.cats := by rw [htr]; exact groupsT_round d p tx
+  have h1 : t.payable = (rawTotals exactOps d p tx).payable.rescaleX d.c := by rw [htr]; rfl
+  have h2 : t.advances = (rawTotals exactOps d p tx).advances.map (·.rescaleX d.c) := by rw [htr]; rfl
+  have h3 : t.due = (rawTotals exactOps d p tx).due.map (·.rescaleX d.c) := by rw [htr]; rfl
+  rw [hG, h1, h2, h3]
+  refine ⟨fun hn => within_unit d.c _ _ _ (by exact_mod_cast Nat.le_of_lt_succ hn) w7, ?_, ?_⟩
+  · intro hn x hx
+    simp only [Option.map_eq_some_iff] at hx
+    obtain ⟨y, hy, rfl⟩ := hx
+    rw [hy] at w8
+    exact within_unit d.c _ _ _ (by exact_mod_cast Nat.le_of_lt_succ hn) w8
+  · intro hn x hx
+    simp only [Option.map_eq_some_iff] at hx
+    obtain ⟨y, hy, rfl⟩ := hx
+    exact within_unit d.c _ _ _ (by exact_mod_cast Nat.le_of_lt_succ hn) (w9 y hy)
+
+/-- `adjDoc` with a payment section: an advance of 30 % and an externally supplied rounding of −0.02 -/
+def payDoc : Doc :=
+  { adjDoc with hasPayment := true, rounding := some ⟨-2, 2⟩,
+                advances := [{ percent := some ⟨⟨30, 2⟩⟩, amount := ⟨0, 0⟩ }] }
+
+theorem payDoc_class : DocC payDoc := by
+  refine ⟨⟨⟨adjDoc_class.rule, adjDoc_class.ne, adjDoc_class.lines, adjDoc_class.discounts, adjDoc_class.charges⟩,
+    rfl, adjDoc_tax_class.lineTaxes, adjDoc_tax_class.discTaxes, adjDoc_tax_class.chTaxes⟩, ?_, ?_⟩
+  · intro x hx
+    simp only [payDoc, Option.some.injEq] at hx
+    subst hx
+    decide
+  · intro a ha
+    simp only [payDoc, List.mem_singleton] at ha
+    subst ha
+    exact Or.inl ⟨_, rfl, by norm_num [Amount.toRat, pow10]⟩
+
+/-- non-vacuity of (3): weights 44, 45 and 89; exact payable 34.16341625 − 0.02 = 34.14341625
+(presented 34.14), exact advance 30 % × 34.16341625 = 10.249024875 (presented 10.25), exact due
+23.894391375 (presented 23.89) -/
+example : DocC payDoc ∧
+    ((calculate exactOps payDoc).toOption.bind (·.totals)).map
+      (fun t => (twtW payDoc (groupsT t), advW payDoc (groupsT t), dueW payDoc (groupsT t))) = some (44, 45, 89) ∧
+    ((calculate exactOps payDoc).toOption.bind (·.totals)).map (fun t => (t.payable, t.advances, t.due)) =
+      some (⟨3414, 2⟩, some ⟨1025, 2⟩, some ⟨2389, 2⟩) :=
+  ⟨payDoc_class, by decide, by decide⟩
+
+/-! ## the first clause as one theorem -/
+
+/-- **calc_eq_spec** — for every document of the class `DocC` (precise rule; prices not including
+tax; at least one line; lines priced in the document currency without breakdown whose discounts and
+charges are percentages ≤ 100 % of the line sum or fixed amounts with ≤ currency + 2 decimals;
+document discounts and charges percentages ≤ 100 % of the sum; ordinary tax combos; `totals.rounding`
+and fixed advances with ≤ currency + 2 decimals, percentage advances ≤ 100 %):
+
+every presented figure of `Calc.calculate exactOps d` is the half-away rounding at the currency's
+precision of a working value (the fields of `w`; `w` itself is never rounded again: `t = roundTotals w`),
+and the working value differs from `Spec.C01.exactQ d` by at most the number of contributing rounding
+points, each worth half a unit of the working precision (currency + 2 decimals).  The rounding points
+are named by the weights: price × quantity of each line and each percentage line discount / charge
+(`lineW`, `sumW`), each document discount / charge (`adjW`, `totalW`), each rate group of the tax
+summary (`G = groupsT t`, `taxW`), each percentage advance (`advW`); sums, differences, the precise
+rule's `RescaleUp`, fixed amounts and the externally supplied rounding contribute nothing. -/
+theorem calc_eq_spec (d : Doc) (out : Out) (t : Totals) (hd : DocC d)
+    (hcalc : calculate exactOps d = .ok out) (ht : out.totals = some t) :
+    ∃ w : Totals, t = roundTotals exactOps d.c w ∧
+      -- presentation: one rounding, half away from zero, at the currency's precision
+      (presents d.c t.sum w.sum.toRat ∧ presents d.c t.total w.total.toRat ∧
+       presents d.c t.tax w.tax.toRat ∧ presents d.c t.totalWithTax w.totalWithTax.toRat ∧
+       presents d.c t.payable w.payable.toRat ∧ t.taxIncluded = none ∧
+       (∀ x, t.discount = some x → ∃ y, w.discount = some y ∧ presents d.c x y.toRat) ∧
+       (∀ x, t.charge = some x → ∃ y, w.charge = some y ∧ presents d.c x y.toRat) ∧
+       (∀ x, t.advances = some x → ∃ y, w.advances = some y ∧ presents d.c x y.toRat) ∧
+       (∀ x, t.due = some x → ∃ y, w.due = some y ∧ presents d.c x y.toRat)) ∧
+      -- distance of the working values from the exact rational pipeline
+      (|w.sum.toRat - (exactQ d).sum| ≤ (sumW d.lines : ℚ) * halfUlp (d.c + 2) ∧
+       |optQ w.discount - (exactQ d).discount| ≤ (adjW (sumW d.lines) d.discounts.length : ℚ) * halfUlp (d.c + 2) ∧
+       |optQ w.charge - (exactQ d).charge| ≤ (adjW (sumW d.lines) d.charges.length : ℚ) * halfUlp (d.c + 2) ∧
+       |w.total.toRat - (exactQ d).total| ≤ (totalW d : ℚ) * halfUlp (d.c + 2) ∧
+       |w.tax.toRat - (exactQ d).tax| ≤ (taxW d (groupsT t) : ℚ) * halfUlp (d.c + 2) ∧
+       |w.totalWithTax.toRat - (exactQ d).totalWithTax| ≤ (twtW d (groupsT t) : ℚ) * halfUlp (d.c + 2) ∧
+       |w.payable.toRat - (exactQ d).payable| ≤ (twtW d (groupsT t) : ℚ) * halfUlp (d.c + 2) ∧
+       |optQ w.advances - (exactQ d).advances| ≤ (advW d (groupsT t) : ℚ) * halfUlp (d.c + 2) ∧
+       (∀ y, w.due = some y → |y.toRat - (exactQ d).due| ≤ (dueW d (groupsT t) : ℚ) * halfUlp (d.c + 2))) := by
+  obtain ⟨p, tx, hpre, htx, _, htr⟩ := calculate_unpack d out t hcalc ht
+  have hG : groupsT t = groupsOf tx.cats := by rw [htr]; exact groupsT_round d p tx
+  have hw := working_spec d p tx hd hpre htx
+  have hti : (rawTotals exactOps d p tx).taxIncluded = none := (rawTotals_fields d p tx hd.tax.inc).2.2.2.1
+  have hopt : ∀ (o : Option Amount) (x : Amount), o.map (exactOps.rescale · d.c) = some x →
+      ∃ y, o = some y ∧ presents d.c x y.toRat := by
+    intro o x hx
+    simp only [Option.map_eq_some_iff] at hx
+    obtain ⟨y, hy, rfl⟩ := hx
+    exact ⟨y, hy, presents_rescale d.c y⟩
+  refine ⟨rawTotals exactOps d p tx, htr, ?_, ?_⟩
+  · rw [htr]
+    refine ⟨presents_rescale _ _, presents_rescale _ _, presents_rescale _ _, presents_rescale _ _,
+      presents_rescale _ _, ?_, hopt _, hopt _, hopt _, hopt _⟩
+    simp [roundTotals, hti]
+  · rw [hG]; exact hw
+
+/-- **precise_error_lt_unit** — for a document of the class `DocC` whose largest weight
+`dueW d G` (G rate groups) is below 100, every presented total is less than one minor currency unit
+from the exact rational value -/
+theorem precise_error_lt_unit (d : Doc) (out : Out) (t : Totals) (hd : DocC d)
+    (hn : dueW d (groupsT t) < 100)
+    (hcalc : calculate exactOps d = .ok out) (ht : out.totals = some t) :
+    |t.sum.toRat - (exactQ d).sum| < 1 / ((pow10 d.c : ℤ) : ℚ) ∧
+    |t.total.toRat - (exactQ d).total| < 1 / ((pow10 d.c : ℤ) : ℚ) ∧
+    |t.tax.toRat - (exactQ d).tax| < 1 / ((pow10 d.c : ℤ) : ℚ) ∧
+    |t.totalWithTax.toRat - (exactQ d).totalWithTax| < 1 / ((pow10 d.c : ℤ) : ℚ) ∧
+    |t.payable.toRat - (exactQ d).payable| < 1 / ((pow10 d.c : ℤ) : ℚ) ∧
+    (∀ x, t.discount = some x → |x.toRat - (exactQ d).discount| < 1 / ((pow10 d.c : ℤ) : ℚ)) ∧
+    (∀ x, t.charge = some x → |x.toRat - (exactQ d).charge| < 1 / ((pow10 d.c : ℤ) : ℚ)) ∧
+    (∀ x, t.advances = some x → |x.toRat - (exactQ d).advances| < 1 / ((pow10 d.c : ℤ) : ℚ)) ∧
+    (∀ x, t.due = some x → |x.toRat - (exactQ d).due| < 1 / ((pow10 d.c : ℤ) : ℚ)) := by
+  obtain ⟨w, htr, _, b1, b2, b3, b4, b5, b6, b7, b8, b9⟩ := calc_eq_spec d out t hd hcalc ht
+  set G := groupsT t
+  -- every weight is at most the weight of the amount due
+  have m1 : twtW d G ≤ dueW d G := Nat.le_add_right _ _
+  have m2 : advW d G ≤ dueW d G := Nat.le_add_left _ _
+  have m3 : totalW d ≤ twtW d G := Nat.le_add_right _ _
+  have m4 : taxW d G ≤ twtW d G := Nat.le_add_left _ _
+  have m5 : sumW d.lines ≤ totalW d := by
+    unfold totalW
+    have : sumW d.lines ≤ sumW d.lines * (1 + d.discounts.length + d.charges.length) :=
+      Nat.le_mul_of_pos_right _ (by omega)
+    omega
+  have m6 : adjW (sumW d.lines) d.discounts.length ≤ totalW d := by
+    unfold totalW adjW
+    have : sumW d.lines * (1 + d.discounts.length + d.charges.length) =
+        sumW d.lines + d.discounts.length * sumW d.lines + sumW d.lines * d.charges.length := by ring
+    rw [this, Nat.mul_add, Nat.mul_one]
+    omega
+  have m7 : adjW (sumW d.lines) d.charges.length ≤ totalW d := by
+    unfold totalW adjW
+    have : sumW d.lines * (1 + d.discounts.length + d.charges.length) =
+        sumW d.lines + sumW d.lines * d.discounts.length + d.charges.length * sumW d.lines := by ring
+    rw [this, Nat.mul_add, Nat.mul_one]
+    omega
+  have c99 : ∀ n : ℕ, n ≤ dueW d G → ((n : ℕ) : ℚ) ≤ 99 := by
+    intro n hle
+    have : n ≤ 99 := by omega
+    exact_mod_cast this
+  have hs : ∀ (a : Amount) (q : ℚ) (n : ℕ), n ≤ dueW d G → |a.toRat - q| ≤ (n : ℚ) * halfUlp (d.c + 2) →
+      |(a.rescaleX d.c).toRat - q| < 1 / ((pow10 d.c : ℤ) : ℚ) :=
+    fun a q n hle h => within_unit d.c a q n (c99 n hle) h
+  have ho : ∀ (o : Option Amount) (q : ℚ) (n : ℕ), n ≤ dueW d G → |optQ o - q| ≤ (n : ℚ) * halfUlp (d.c + 2) →
+      ∀ x, o.map (exactOps.rescale · d.c) = some x → |x.toRat - q| < 1 / ((pow10 d.c : ℤ) : ℚ) := by
+    intro o q n hle h x hx
+    simp only [Option.map_eq_some_iff] at hx
+    obtain ⟨y, hy, rfl⟩ := hx
+    rw [hy] at h
+    exact hs y q n hle h
+  rw [htr]
+  refine ⟨hs _ _ _ (by omega) b1, hs _ _ _ (by omega) b4, hs _ _ _ (by omega) b5, hs _ _ _ (by omega) b6,
+    hs _ _ _ (by omega) b7, ho _ _ _ (by omega) b2, ho _ _ _ (by omega) b3, ho _ _ _ (by omega) b8, ?_⟩
+  intro x hx
+  have hx' : w.due.map (exactOps.rescale · d.c) = some x := hx
+  simp only [Option.map_eq_some_iff] at hx'
+  obtain ⟨y, hy, rfl⟩ := hx'
+  exact hs y _ _ (Nat.le_refl _) (b9 y hy)
+
+/-- non-vacuity of `calc_eq_spec` / `precise_error_lt_unit`: `payDoc` is of the class and its largest
+weight is 89 < 100; the presented figures against the exact values 30.597025, 3.0597025, 0.6119405,
+28.149263, 6.01415325, 34.16341625, 34.14341625, 10.249024875, 23.894391375 -/
+example : DocC payDoc ∧
+    ((calculate exactOps payDoc).toOption.bind (·.totals)).map (fun t => dueW payDoc (groupsT t)) = some 89 ∧
+    ((calculate exactOps payDoc).toOption.bind (·.totals)).map (fun t => (t.sum, t.discount, t.charge, t.total)) =
+      some (⟨3060, 2⟩, some ⟨306, 2⟩, some ⟨61, 2⟩, ⟨2815, 2⟩) ∧
+    ((calculate exactOps payDoc).toOption.bind (·.totals)).map (fun t => (t.tax, t.totalWithTax, t.payable)) =
+      some (⟨601, 2⟩, ⟨3416, 2⟩, ⟨3414, 2⟩) ∧
+    ((calculate exactOps payDoc).toOption.bind (·.totals)).map (fun t => (t.advances, t.due)) =
+      some (some ⟨1025, 2⟩, some ⟨2389, 2⟩) :=
+  ⟨payDoc_class, by decide, by decide, by decide, by decide⟩
 
 /-! ## pinned source shapes (regenerated facts; tools/pin_calc_expect.py) -/
 
